@@ -103,6 +103,13 @@ def hole_of(F, b, part):
             return [Hole("text", term, f"date printed with {inner[2][1]!r}")]
         if isinstance(inner, tuple) and inner and inner[0] == "field" and inner[2] in ("ticker", "symbol"):
             return [Hole("ticker", inner, "ticker")]
+        # `<Decimal>.to_string()` of a parameter (possibly the payload of an Option<Decimal> parameter) is Decimal's Display
+        root = inner
+        while isinstance(root, tuple) and root and root[0] in ("some", "cast") and len(root) >= 2:
+            root = root[1]
+        if inner is not term and isinstance(root, tuple) and root and root[0] == "param" and root[1] < b.argc and \
+                "rust_decimal::decimal::Decimal" in b.local_ty(root[1] + 1) and not lossy:
+            return [Hole("decimal", inner, "decimal")]
     if "alloc::string::String" in ty:
         if isinstance(term, tuple) and term and term[0] == "field" and term[2] in ("ticker", "symbol"):
             return [Hole("ticker", term, "ticker")]
